@@ -295,10 +295,10 @@ class Check:
         os.makedirs(os.path.join(WORK, 'replays'), exist_ok=True)
 
     # ---- program
-    def program(self):
-        if self.prog is None:
+    def program(self, variant=''):
+        if self.prog is None or getattr(self, '_variant', '') != variant:
             try:
-                self.prog = build.load_program()
+                self.prog = build.load_program(variant); self._variant = variant
             except RuntimeError as e:
                 raise Inconclusive(str(e))
             self.cov['mir_dump'] = {'source_hash': self.prog.src_hash, 'hashes': self.prog.hashes, 'dump_s': round(self.prog.dump_secs, 1)}
@@ -332,7 +332,9 @@ class Check:
         path = os.path.join(WORK, 'replays', f'{self.pid}_{abs(hash(key)) % 10**8}_{len(self.violations) + len(self.known_hits)}.json')
         json.dump({'property': self.pid, 'key': key, 'what': what, 'case': case, 'detail': detail}, open(path, 'w'), indent=1, default=str)
         if not reproduced:
-            self.unreproduced.append((key, what, path)); return
+            if not any(u[0] == key for u in self.unreproduced):
+                self.unreproduced.append((key, what, path))
+            return
         k = self.key_known(key)
         if k is not None:
             self.known_hits.setdefault(key, (what, path)); return
